@@ -83,6 +83,20 @@ def gen_config(rng, tier, flavor="db"):
         cfg["n_intervals"] = None
         cfg["temperatures"] = sorted(set(cfg["temperatures"] + [1.0]))
         return cfg
+    if flavor == "db" and rng.random() < 0.02:
+        # tiny shapes for the exact one-sweep kernel of the STRUCTURAL compound step (see check_structural_sweep_kernel)
+        cfg["ploidy"] = rng.choice([2, 3, 3])
+        cfg["n_alleles"] = rng.choice([[2, 2], [2, 2, 2], [2, 2, 2], [2, 3]])
+        n = len(cfg["n_alleles"])
+        cfg["sweep_intervals"] = rng.choice([[[0, 1], [1, 2]]] if n == 2 else [[[0, 1], [1, 3]], [[0, 2], [2, 3]], [[0, 1], [1, 2], [2, 3]]])
+        cfg["sweep_step_type"] = rng.choice([0, 1])
+        cfg["n_reads"] = rng.choice([0, 1, 2, 3])
+        cfg["temperatures"] = sorted(set([rng.choice([1.0, 0.5, 0.5, 0.2]), 1.0]))
+        cfg["struct_sweep_kernel"] = True
+        cfg["long_locus"] = False
+        cfg["alpha_beta"] = [1.0, 3.0]
+        cfg["n_intervals"] = None
+        return cfg
     cfg["alpha_beta"] = rng.choice([[1.0, 3.0], [1.0, 3.0], [1.0, 1.0], [2.0, 2.0], [0.5, 0.5]])
     if flavor == "db" and rng.random() < 0.06:
         # rare shapes: haploid / octoploid, longer loci (cheap settings otherwise)
@@ -1075,6 +1089,101 @@ def check_mutation_sweep_kernel(ctx, cfg):
         raise Violation("sweep_not_stationary",
                         "the tempered posterior is not stationary under one full mutation sweep: |sum_x pi(x)K(x,y) - pi(y)| = %.3g at y = %r" % (worst, at),
                         step=0, detail={"ploidy": pl, "n_alleles": n_alleles, "temp": T, "inbreeding": F})
+
+
+def check_structural_sweep_kernel(ctx, cfg):
+    """Tiny instances only: the exact kernel of ONE structural compound step (structural.compound_step: randomly permuted
+    intervals, one recombination or dosage sub-step per interval) over unordered genotypes, extracted by scripting the
+    permutation and exploring every categorical draw depth-first through the seams; the tempered posterior must be stationary
+    under it.  Every sub-step can be exact while the SWEEP is not - e.g. if which sub-steps run depends on earlier outcomes."""
+    import itertools
+    m = bootstrap()
+    np = m["np"]
+    sim = AssembleSim(ctx, cfg, checks=())
+    reads, counts = sim.reads, sim.counts
+    if len(reads) == 0:
+        reads = np.full((1, len(cfg["n_alleles"]), max(cfg["n_alleles"])), np.nan)
+        counts = None
+    reads_l, counts_l = sim.lists(reads, counts)
+    pl = cfg["ploidy"]
+    n_alleles = cfg["n_alleles"]
+    T = float(cfg["temperatures"][0])
+    F = float(cfg["inbreeding"])
+    luh = float(np.log(np.array(n_alleles, dtype=np.int8)).sum())
+    haps = list(itertools.product(*[range(a) for a in n_alleles]))
+    states = list(itertools.combinations_with_replacement(haps, pl))
+
+    def lpi(g):
+        rows = [list(h) for h in g]
+        return T * (ref.read_llk(reads_l, counts_l, rows) + ref.lprior_assemble(rows, luh, F))
+
+    lp = [lpi(g) for g in states]
+    z = ref.log_sum_exp(lp)
+    pi = {g: math.exp(l - z) for g, l in zip(states, lp)}
+    intervals = np.array(cfg["sweep_intervals"], dtype=np.int64)
+    n_int = len(intervals)
+    st = int(cfg["sweep_step_type"])
+    orders = list(itertools.product(*[range(i + 1) for i in range(n_int - 1, 0, -1)])) or [()]
+    K = {g: {} for g in states}
+    n_paths = 0
+    with Seams() as seams:
+        sim.install(seams)
+        sim.in_probe += 1
+        try:
+            for g in states:
+                for fy in orders:
+                    stack = [[]]
+                    while stack:
+                        prefix = stack.pop()
+                        sizes = []
+                        prob = [1.0 / len(orders)]
+
+                        def probe(vec, _prefix=prefix, _sizes=sizes, _prob=prob):
+                            k = len(_sizes)
+                            i = _prefix[k] if k < len(_prefix) else 0
+                            _sizes.append(len(vec))
+                            _prob[0] *= float(vec[i])
+                            return i
+
+                        x = np.array(g, dtype=np.int8)
+                        sim.rng.probe = probe
+                        sim.rng.int_script = list(fy)
+                        try:
+                            sim.real["struct_compound"](genotype=x, reads=reads, llk=float(sim.real["log_likelihood"](reads, x, read_counts=counts)),
+                                                        intervals=intervals.copy(), log_unique_haplotypes=luh, inbreeding=F, step_type=st, randomize=True,
+                                                        temp=T, read_counts=counts, cache=None)
+                        finally:
+                            sim.rng.probe = None
+                            leftover = sim.rng.int_script
+                            sim.rng.int_script = None
+                        if leftover:
+                            raise HarnessError("structural.compound_step did not draw the scripted permutation: the sweep kernel cannot be extracted")
+                        n_paths += 1
+                        if n_paths > 200000:
+                            raise HarnessError("structural sweep kernel: path explosion")
+                        y = tuple(sorted(tuple(int(v) for v in row) for row in x))
+                        K[g][y] = K[g].get(y, 0.0) + prob[0]
+                        for k in range(len(prefix), len(sizes)):
+                            for alt in range(1, sizes[k]):
+                                stack.append(prefix + [0] * (k - len(prefix)) + [alt])
+        finally:
+            sim.in_probe -= 1
+    for g in states:
+        tot = sum(K[g].values())
+        if abs(tot - 1.0) > 1e-9:
+            raise Violation("sweep_kernel_not_stochastic", "one-sweep structural kernel row sums to %r" % tot, step=0, detail={"state": g})
+    worst, at = 0.0, None
+    for y in states:
+        inflow = sum(pi[g] * K[g].get(y, 0.0) for g in states)
+        if abs(inflow - pi[y]) > worst:
+            worst, at = abs(inflow - pi[y]), y
+    ctx.counters.inc("structural_sweep_kernels_extracted")
+    ctx.key("struct_sweep_kernel", pl, tuple(n_alleles), T, F, st, tuple(map(tuple, cfg["sweep_intervals"])), cfg["data_seed"])
+    if worst > 1e-9:
+        raise Violation("sweep_not_stationary",
+                        "the tempered posterior is not stationary under one full structural compound step (%s, intervals %r): |sum_x pi(x)K(x,y) - pi(y)| = %.3g at y = %r"
+                        % ("recombination" if st == 0 else "dosage swap", cfg["sweep_intervals"], worst, at),
+                        step=0, detail={"ploidy": pl, "n_alleles": n_alleles, "temp": T, "inbreeding": F, "step_type": st})
 
 
 def h_row(x, h):
